@@ -21,7 +21,9 @@ import (
 type ConfSpec struct {
 	Method       string `json:"method,omitempty"` // default bearer
 	NoData       bool   `json:"no_data,omitempty"`
-	NotOnOrAfter *int64 `json:"noa_ms"`             // nil: attribute absent
+	NotOnOrAfter *int64 `json:"noa_ms"`          // nil: attribute absent
+	NotBefore    *int64 `json:"nb_ms,omitempty"` // non-nil: SubjectConfirmationData carries a NotBefore attribute too (schema-legal; no property gives it a meaning)
+	Address      string `json:"address,omitempty"`
 	NOAText      string `json:"noa_text,omitempty"` // non-empty: SubjectConfirmationData/@NotOnOrAfter is written as exactly this text
 	Recipient    string `json:"recipient"`
 	InResponseTo string `json:"irt"`
@@ -167,6 +169,9 @@ func rewriteTimes(el *etree.Element, form int) {
 	}
 	for i, a := range el.Attr {
 		if a.Space == "" && timeAttrs[a.Key] {
+			if form == 5 && el.Tag == "SubjectConfirmationData" && a.Key == "NotBefore" {
+				continue // the one instant the library parses strictly (plain time.Time): a zone-less form is not among "the lexical forms the parser admits" there
+			}
 			if t, err := time.Parse("2006-01-02T15:04:05.999Z07:00", a.Value); err == nil {
 				el.Attr[i].Value = lexicalForm(t, form)
 			}
@@ -198,6 +203,10 @@ func (a *AsrtSpec) toAssertion(t0 time.Time) *saml.Assertion {
 				if c.NotOnOrAfter != nil {
 					d.NotOnOrAfter = t0.Add(ms(*c.NotOnOrAfter)).UTC()
 				}
+				if c.NotBefore != nil {
+					d.NotBefore = t0.Add(ms(*c.NotBefore)).UTC()
+				}
+				d.Address = c.Address
 				sc.SubjectConfirmationData = d
 			}
 			sub.SubjectConfirmations = append(sub.SubjectConfirmations, sc)
